@@ -139,6 +139,19 @@ CLAIMED.update({
         note="Key Ord total and consistent with Eq. Trusted: inspector, instrumented key comparison counter."),
 })
 
+CLAIMED.update({
+    "C15": dict(
+        cat="model_checking", ref="DESIGN.md §7 C15",
+        technique="TLC replay of the recorded stream of atomic operations through a TLA+ vector-clock memory model (MemModel / Trace_HB); orderings of control-word accesses read from the source",
+        text="Scheduler-controlled runs record every atomic operation with the ordering its call site passes (pointer cells via the hook's "
+             "ordering parameter, control words via a table parsed from the source at the hook's line), bin-mutex lock/unlock, park/unpark, "
+             "allocations and cross-thread dereferences; TLC recomputes happens-before and requires every dereferenced object's "
+             "initialisation to happen-before the dereference and every load of a location last written Relaxed by another thread to be "
+             "ordered after that store (publication through bins, lists, values, tree links, copies by transfer/treeify/untreeify).",
+        note="Guarded loads are SeqCst whatever ordering is passed (seize 0.3.3 protect); SeqCst treated as acquire+release; covers the paths the "
+             "explored runs take. TreeNode::red is not hooked."),
+})
+
 NOT_APPLICABLE = {
     "C16": "compile-time verdict of rustc's borrow checker over a corpus of programs; there is no state, transition or trace for a TLA+ specification to describe (DESIGN.md §7)",
     "C17": "compile-time verdict of rustc's trait solver (Send/Sync bounds); no state, transition or trace for a TLA+ specification to describe (DESIGN.md §7)",
